@@ -51,6 +51,9 @@ var (
 	OpInvalid = Op{K: "I"} // expect exactly one invalid-message response
 )
 
+// srvSizes: request sizes for the size-history scenarios (ratio about 1.26, around and above the 512-byte initial receive buffer).
+var srvSizes = []int{200, 600, 760, 960, 1200, 1500, 1900, 2400}
+
 type SrvCfg struct {
 	Conns    [][]Op
 	PipeCap  int
@@ -115,6 +118,14 @@ func (w *srvWorld) runScript(name string, ops []Op) {
 		switch op.K {
 		case "W":
 			_, _ = c.Write(reqBytes(op.IDs...))
+		case "Z": // a request whose size is an environment choice (size history on one connection), then its response
+			sz := srvSizes[mc.ChooseFree(name+".reqsize", len(srvSizes))]
+			id := op.IDs[0]
+			if n := sz - len(reqBytes(id)); n > 0 {
+				id += strings.Repeat(".", n)
+			}
+			_, _ = c.Write(reqBytes(id))
+			w.expectResponse(name, oi, c, []string{id})
 		case "H":
 			b := reqBytes(op.IDs...)
 			_, _ = c.Write(b[:len(b)/2])
@@ -270,6 +281,7 @@ func init() {
 	srv("srv-req-read-close", "one request, read its response, close", SrvCfg{Conns: [][]Op{{W("ok1"), R("ok1"), OpClose}}})
 	srv("srv-req-close", "one request, close without reading (disconnect while the response is produced/written)", SrvCfg{Conns: [][]Op{{W("ok1"), OpClose}}})
 	srv("srv-req-close-smallpipe", "one request into a 16-byte pipe nobody reads, then close (write loop blocked mid-response)", SrvCfg{PipeCap: 16, Conns: [][]Op{{W("ok1"), OpClose}}})
+	srv("srv-size-history", "three sequential requests whose sizes are chosen from 8 sizes each (all 512 size histories), then a second connection is served", SrvCfg{Conns: [][]Op{{{K: "Z", IDs: []string{"ok1"}}, {K: "Z", IDs: []string{"ok2"}}, {K: "Z", IDs: []string{"ok3"}}, OpClose}}})
 	srv("srv-two-seq", "two sequential requests on one connection", SrvCfg{Conns: [][]Op{{W("ok1"), R("ok1"), W("terr2"), R("terr2"), OpClose}}})
 	srv("srv-pipelined", "two requests in one write, then read both", SrvCfg{Conns: [][]Op{{{K: "2", IDs: []string{"ok1", "perr2"}}, R("ok1", "perr2"), OpClose}}})
 	srv("srv-3pipelined-close", "three requests written back to back, then close without reading anything (requests still queued in the connection when it ends)", SrvCfg{Conns: [][]Op{{W("ok1"), W("ok2"), W("ok3"), OpClose}}})
